@@ -117,6 +117,14 @@ def plan(prop, tier):
                 T("rand", "repl", 1500, 30000)]
     if prop == "C15":
         return [R("repl", 3 if q else 4), T("rand", "repl", 2000, 40000)]
+    if prop == "C08":
+        o = {"also_unopt": True}
+        return [dict(G("shapes", Leaves="<-LvOpt", Quants="<-QOpt8", MaxSize=3 if q else 4, MaxLen=3,
+                       FlagSets="<-FlagsIM", Alpha="{97, 65, 10}"), **o),
+                dict(G("anch", Leaves="<-LvAnch", Quants="<-QBasicLazy", MaxSize=3 if q else 4, FlagSets="<-FlagsMS",
+                       Alpha="{97, 10}", MaxLen=3), **o),
+                dict(G("sem", MaxSize=3 if q else 4, MaxLen=3), **o),
+                T("rand", "general", 2000, 40000, unopt=True), T("case", "case", 1000, 20000, unopt=True)]
     if prop == "C11":
         return [G("ascii", Leaves="<-LvCase", Quants="<-QSmall", MaxSize=3 if q else 4, FlagSets="<-FlagsI",
                   Alpha="{97, 65, 66, 49}", MaxLen=3),
